@@ -51,7 +51,9 @@ def tokenize(source: str):
 def literal(scanner: Scanner, ctx: dict):
     "Consumes literal from given scanner"
     start = scanner.pos
-    expression_start = ctx['expression']
+    # Depth of the expression this literal belongs to: it is 1 also when the literal
+    # continues after a `$` or a field inside nested braces, e.g. `{a{$b}}`
+    expression_start = 1 if ctx['expression'] else 0
     value = []
 
     while not scanner.eof():
